@@ -340,7 +340,7 @@ fn normalise_diff(d: &str) -> Vec<String> {
         if l.starts_with("diff --git ") && !cur.is_empty() {
             sections.push(std::mem::take(&mut cur));
         }
-        if l.starts_with("index ") {
+        if l.starts_with("index ") || l.starts_with("similarity index ") {
             continue;
         }
         if l.starts_with("@@ ") {
@@ -378,7 +378,15 @@ pub fn run_level_b(
     let mut symlinks = 0usize;
 
     // ---- the tree (creation order from the plan)
-    let use_git = plan.create_seed % 4 == 0 && !world.is_terminal();
+    let n_renames = world
+        .files
+        .iter()
+        .filter(|f| matches!(&f.diff, FileDiff::Insert { renamed_from: Some(_), .. }))
+        .count();
+    let add_or_del = world.files.iter().any(|f| matches!(f.diff, FileDiff::Added | FileDiff::Deleted));
+    // with a rename in the diff, git's rename detection must have exactly one candidate pair
+    let rename_ok = n_renames == 0 || (n_renames == 1 && !add_or_del);
+    let use_git = plan.create_seed % 4 == 0 && !world.is_terminal() && rename_ok;
     let order = exec::perm_from_seed(plan.create_seed | 1, world.files.len());
     let rendered = &j.rendered;
     let mut git_diff: Option<String> = None;
@@ -391,10 +399,11 @@ pub fn run_level_b(
                 let f = &world.files[i];
                 match &f.diff {
                     FileDiff::None | FileDiff::Deleted => write_file(&root, &f.path, &rendered[i].text),
-                    FileDiff::Insert { line } => {
+                    FileDiff::Insert { line, renamed_from } => {
                         let mut lines = rendered[i].lines.clone();
                         lines.remove(line - 1);
-                        write_file(&root, &f.path, &(lines.join("\n") + "\n"));
+                        let base_path = renamed_from.as_deref().unwrap_or(&f.path);
+                        write_file(&root, base_path, &(lines.join("\n") + "\n"));
                     }
                     FileDiff::Added => {}
                 }
@@ -404,7 +413,13 @@ pub fn run_level_b(
             for &i in &order {
                 let f = &world.files[i];
                 match &f.diff {
-                    FileDiff::Added | FileDiff::Insert { .. } => write_file(&root, &f.path, &rendered[i].text),
+                    FileDiff::Added => write_file(&root, &f.path, &rendered[i].text),
+                    FileDiff::Insert { renamed_from, .. } => {
+                        if let Some(old) = renamed_from {
+                            let _ = std::fs::remove_file(root.join(old));
+                        }
+                        write_file(&root, &f.path, &rendered[i].text)
+                    }
                     FileDiff::Deleted => {
                         let _ = std::fs::remove_file(root.join(&f.path));
                     }
@@ -412,7 +427,8 @@ pub fn run_level_b(
                 }
             }
             git(&root, &["add", "-N", "-f", "."])?;
-            git_diff = git(&root, &["diff", "HEAD", "-U0", "--no-color", "--no-ext-diff", "--no-renames"]);
+            let rename_flag = if n_renames > 0 { "-M20%" } else { "--no-renames" };
+            git_diff = git(&root, &["diff", "HEAD", "-U0", "--no-color", "--no-ext-diff", rename_flag]);
             git_diff.as_ref()?;
             Some(())
         })();
